@@ -1,3 +1,8 @@
+#[cfg(lbfs_torrent_bootstrap_verif)]
+use std::{collections::HashMap, io::{Seek, SeekFrom, Write as IoWrite}, sync::Mutex};
+#[cfg(lbfs_torrent_bootstrap_verif)]
+use crate::verif_shim::fs::{self, OpenOptions};
+#[cfg(not(lbfs_torrent_bootstrap_verif))]
 use std::{collections::HashMap, fs::{self, OpenOptions}, io::{Seek, SeekFrom, Write as IoWrite}, sync::Mutex};
 
 use crate::{finder::TorrentMetadataEntry, orchestrator::OrchestrationPiece, solver::PieceMatchResult};
